@@ -117,7 +117,14 @@ func constantTables(pkgs []*packages.Package) map[types.Object]*ast.CompositeLit
 						if !ok || nm.Name == "_" {
 							continue
 						}
-						if _, isArr := cl.Type.(*ast.ArrayType); !isArr {
+						switch t := cl.Type.(type) {
+						case *ast.ArrayType:
+						case *ast.MapType:
+							// only tables of functions selected by a boolean: T[cond](args)
+							if k, isId := t.Key.(*ast.Ident); !isId || k.Name != "bool" {
+								continue
+							}
+						default:
 							continue
 						}
 						if obj := p.TypesInfo.Defs[nm]; obj != nil && !obj.Exported() {
@@ -263,6 +270,14 @@ func (l *Loaded) unrollConstantRanges(pkgs []*packages.Package) []string {
 			var fix func(list []ast.Stmt)
 			fix = func(list []ast.Stmt) {
 				for i, st := range list {
+					if es, isES := st.(*ast.ExprStmt); isES {
+						if nst := l.dispatchThroughTable(p, es, tables); nst != nil {
+							list[i] = nst
+							affected[p] = true
+							notes = append(notes, "call through a fixed table of two functions at "+l.relPos(es.Pos())+" is judged as the if/else it stands for")
+						}
+						continue
+					}
 					rs, ok := st.(*ast.RangeStmt)
 					if !ok || rs.Tok == token.ASSIGN {
 						continue
@@ -531,4 +546,75 @@ func substituteFields(body *ast.BlockStmt, name string, row *ast.CompositeLit, f
 	_ = copyInit
 	rewrite(body)
 	return okAll
+}
+
+// dispatchThroughTable: T[cond](args) for an effectively constant map[bool]func... literal with
+// the keys true and false becomes if cond { Ttrue(args) } else { Tfalse(args) }; a method
+// expression (*R).m applied to (x, rest...) is written x.m(rest...).
+func (l *Loaded) dispatchThroughTable(p *packages.Package, es *ast.ExprStmt, tables map[types.Object]*ast.CompositeLit) ast.Stmt {
+	call, ok := es.X.(*ast.CallExpr)
+	if !ok || call.Ellipsis.IsValid() {
+		return nil
+	}
+	ix, ok := unparen(call.Fun).(*ast.IndexExpr)
+	if !ok {
+		return nil
+	}
+	id, ok := unparen(ix.X).(*ast.Ident)
+	if !ok {
+		return nil
+	}
+	cl := tables[p.TypesInfo.Uses[id]]
+	if cl == nil || len(cl.Elts) != 2 {
+		return nil
+	}
+	if _, isMap := cl.Type.(*ast.MapType); !isMap {
+		return nil
+	}
+	var onTrue, onFalse ast.Expr
+	for _, e := range cl.Elts {
+		kv, ok := e.(*ast.KeyValueExpr)
+		if !ok {
+			return nil
+		}
+		k, ok := kv.Key.(*ast.Ident)
+		if !ok {
+			return nil
+		}
+		switch k.Name {
+		case "true":
+			onTrue = kv.Value
+		case "false":
+			onFalse = kv.Value
+		}
+	}
+	if onTrue == nil || onFalse == nil {
+		return nil
+	}
+	mk := func(fn ast.Expr, args []ast.Expr) ast.Stmt {
+		fn = unparen(cloneNode(fn))
+		var c *ast.CallExpr
+		// (*R).m or R.m with the receiver as first argument
+		if sel, isSel := fn.(*ast.SelectorExpr); isSel && len(args) > 0 {
+			isMethodExpr := false
+			switch x := unparen(sel.X).(type) {
+			case *ast.StarExpr:
+				_, isMethodExpr = unparen(x.X).(*ast.Ident)
+			}
+			if isMethodExpr {
+				c = &ast.CallExpr{Fun: &ast.SelectorExpr{X: parenIfNeeded(args[0]), Sel: sel.Sel}, Lparen: call.Lparen, Args: args[1:], Rparen: call.Rparen}
+			}
+		}
+		if c == nil {
+			c = &ast.CallExpr{Fun: fn, Lparen: call.Lparen, Args: args, Rparen: call.Rparen}
+		}
+		return &ast.ExprStmt{X: c}
+	}
+	argsCopy := make([]ast.Expr, len(call.Args))
+	for i, a := range call.Args {
+		argsCopy[i] = cloneNode(a)
+	}
+	return &ast.IfStmt{If: es.Pos(), Cond: ix.Index,
+		Body: &ast.BlockStmt{Lbrace: es.Pos(), List: []ast.Stmt{mk(onTrue, call.Args)}, Rbrace: es.End()},
+		Else: &ast.BlockStmt{Lbrace: es.Pos(), List: []ast.Stmt{mk(onFalse, argsCopy)}, Rbrace: es.End()}}
 }
